@@ -7,8 +7,6 @@
 
   Code values that are NOT the textbook location (pinned, with a `…_spec_counterexample`):
     * Poisson `max()` is `u64::MAX` (textbook `+∞`; doc comment `2^63 − 1`),
-    * Weibull `mode()` for shape k < 1 evaluates `λ((k−1)/k)^{1/k}` on a negative base (NaN in
-      `f64`; over ℝ `λ` at k = 1/2) instead of the textbook 0,
     * Categorical `min() = 0` / `max() = K − 1` are not tight when the first / last category has
       zero mass.
   Categorical `median()` (a lower-bound binary search for `0.5·total` in the cumulative table) is
@@ -20,6 +18,9 @@
   Poisson `median()` is the documented approximation `max(0, ⌊λ + 1/3 − 0.02/λ⌋)`: never below
   `min() = 0` (`poisson_median_nonneg`), and a true median (0) for `0 < λ ≤ ln 2`
   (`poisson_median_small_is_median`).
+  Weibull `mode()` is the textbook mode for every shape (`weibull_mode_pin`, no hypothesis): since the
+  source fix the guard is `k < 1 || ulps_eq!(k, 1)`, so `k < 1` returns 0 (it used to evaluate
+  `λ((k−1)/k)^{1/k}` on a negative base: NaN in `f64`).
   Uniform `mode()` is statrs' documented convention `(a + b)/2` (every point of the support is a
   mode: `uniform_mode_isMode`).
 -/
@@ -233,27 +234,53 @@ theorem weibull_mode_one_pin (h : d.f_shape = 1) :
   rfun_norm
   rw [h]; norm_num
 
-/-- branch `k ≠ 1`: the formula `λ((k − 1)/k)^{1/k}` is evaluated (whatever the sign of the base) -/
-theorem weibull_mode_code_pin (h : d.f_shape ≠ 1) :
+/-- guard `k < 1.0 || ulps_eq!(k, 1.0)` (after the source fix): for every `k ≤ 1` `mode()` is `0`,
+    the textbook mode (the density decreases from its pole / finite maximum at 0).  Before the fix
+    only `k = 1` took this branch and `k < 1` evaluated the closed form on a negative base. -/
+theorem weibull_mode_le_one_pin (h : d.f_shape ≤ 1) :
+    Weibull.mode d = some (Location.Weibull.mode d.f_shape d.f_scale) ∧ Weibull.mode d = some 0 := by
+  unfold Weibull.mode Location.Weibull.mode
+  rfun_norm
+  have hg : d.f_shape < (1.0 : ℝ) ∨ d.f_shape = (1.0 : ℝ) := by
+    norm_num; exact lt_or_eq_of_le h
+  have hn : ¬ 1 < d.f_shape := not_lt.mpr h
+  simp only [decide_eq_true_eq, if_pos hg, if_neg hn]
+  norm_num
+
+/-- `k < 1` in particular -/
+theorem weibull_mode_lt_one_pin (h : d.f_shape < 1) : Weibull.mode d = some 0 :=
+  (weibull_mode_le_one_pin d h.le).2
+
+/-- else-branch (`1 < k`): the formula `λ((k − 1)/k)^{1/k}` is evaluated (on a positive base) -/
+theorem weibull_mode_code_pin (h : 1 < d.f_shape) :
     Weibull.mode d = some (Location.Weibull.modeFormula d.f_shape d.f_scale) := by
   unfold Weibull.mode Location.Weibull.modeFormula
   rfun_norm
-  have : ¬ (d.f_shape = (1.0 : ℝ)) := by norm_num; exact h
-  simp only [this, decide_false, Bool.false_eq_true, if_false]
+  have : ¬ (d.f_shape < (1.0 : ℝ) ∨ d.f_shape = (1.0 : ℝ)) := by
+    norm_num; exact ⟨h.le, h.ne'⟩
+  simp only [decide_eq_true_eq, if_neg this]
   norm_num
 
-/-- `1 < k`: the textbook mode -/
-theorem weibull_mode_pin (h : 1 < d.f_shape) :
+/-- `mode()` is the textbook mode for EVERY shape (`λ((k − 1)/k)^{1/k}` for `1 < k`, `0` for
+    `k ≤ 1`); no hypothesis on the parameters is needed. -/
+theorem weibull_mode_pin :
     Weibull.mode d = some (Location.Weibull.mode d.f_shape d.f_scale) := by
-  rw [weibull_mode_code_pin d h.ne']; unfold Location.Weibull.mode; rw [if_pos h]
+  rcases lt_or_ge 1 d.f_shape with h | h
+  · rw [weibull_mode_code_pin d h]; unfold Location.Weibull.mode; rw [if_pos h]
+  · exact (weibull_mode_le_one_pin d h).1
 
-/-- Weibull(1/2, 1): the density is decreasing, textbook mode 0; `mode()` is
-    `((−1/2)/(1/2))^2 = 1` -/
-theorem weibull_mode_spec_counterexample :
-    Weibull.mode (⟨1 / 2, 1, 1⟩ : Weibull ℝ) = some 1 ∧ Location.Weibull.mode (1 / 2) 1 = 0 := by
+/-- The formerly defective witness Weibull(1/2, 1): the density is decreasing, textbook mode 0, and
+    `mode()` is now `0` (it was `((−1/2)/(1/2))^2 = 1` over ℝ, NaN in `f64`). -/
+theorem weibull_mode_half_instance :
+    Weibull.mode (⟨1 / 2, 1, 1⟩ : Weibull ℝ) = some 0 ∧ Location.Weibull.mode (1 / 2) 1 = 0 := by
   constructor
-  · rw [weibull_mode_code_pin _ (by norm_num)]; unfold Location.Weibull.modeFormula; norm_num
+  · exact weibull_mode_lt_one_pin _ (by norm_num)
   · unfold Location.Weibull.mode; norm_num
+
+/-- the new guard on every carrier (in particular IEEE `Float`): `shape < 1.0` alone gives `0.0` -/
+theorem weibull_mode_lt_one_generic (d : Weibull α) (h : d.f_shape < (1.0 : α)) :
+    Weibull.mode d = some (0.0 : α) := by
+  unfold Weibull.mode; simp [h]
 
 theorem weibull_min_pin : Weibull.min d = Location.Weibull.min := by
   unfold Weibull.min Location.Weibull.min; norm_num
@@ -264,7 +291,7 @@ theorem weibull_max_pin (d : Weibull α) :
 
 example : ∃ d : Weibull ℝ, 0 < d.f_scale ∧ 1 < d.f_shape := ⟨⟨2, 1, 1⟩, by norm_num⟩
 example : ∃ d : Weibull ℝ, 0 < d.f_scale ∧ d.f_shape = 1 := ⟨⟨1, 1, 1⟩, by norm_num⟩
-example : ∃ d : Weibull ℝ, 0 < d.f_scale ∧ 0 < d.f_shape ∧ d.f_shape ≠ 1 :=
+example : ∃ d : Weibull ℝ, 0 < d.f_scale ∧ 0 < d.f_shape ∧ d.f_shape < 1 :=
   ⟨⟨1 / 2, 1, 1⟩, by norm_num⟩
 end weibull
 
